@@ -19,6 +19,19 @@ var wide = []int64{1000000007, -1000000007, math.MaxInt64, math.MinInt64, math.M
 type Gen struct {
 	R    *rand.Rand
 	next int64 // version counter
+	// earlier valid build operations of this history: their texts are pushed again, byte for byte
+	fulls, incs []*Op
+}
+
+// again re-issues an earlier build operation with the same text (a configuration centre pushing a text it
+// pushed before): a full build replaces everything by it once more, an incremental build merges it again,
+// whatever incremental builds and removals happened in between.
+func (g *Gen) again(m Model, old *Op) *Op {
+	op := &Op{Kind: old.Kind, Text: old.Text, Rules: append([]Rule{}, old.Rules...), Again: true}
+	for _, r := range op.Rules {
+		op.Rel = append(op.Rel, relOf(m, r))
+	}
+	return op
 }
 
 func NewGen(r *rand.Rand) *Gen { return &Gen{R: r, next: 1} }
@@ -344,16 +357,28 @@ func (g *Gen) Fail(m Model, kind string) *Op {
 func (g *Gen) Next(m Model, first bool) *Op {
 	p := g.R.Intn(100)
 	if first && p < 60 {
-		return g.Full(m)
+		op := g.Full(m)
+		g.fulls = append(g.fulls, op)
+		return op
 	}
 	if len(m) == 0 && p >= 60 && g.R.Intn(3) > 0 { // an empty set is a poor start for removals and rejected texts
 		p = g.R.Intn(60)
 	}
 	switch {
 	case p < 14:
-		return g.Full(m)
+		if len(g.fulls) > 0 && g.R.Intn(3) == 0 {
+			return g.again(m, g.fulls[g.R.Intn(len(g.fulls))])
+		}
+		op := g.Full(m)
+		g.fulls = append(g.fulls, op)
+		return op
 	case p < 60:
-		return g.Inc(m)
+		if len(g.incs) > 0 && g.R.Intn(8) == 0 {
+			return g.again(m, g.incs[g.R.Intn(len(g.incs))])
+		}
+		op := g.Inc(m)
+		g.incs = append(g.incs, op)
+		return op
 	case p < 82:
 		return g.Remove(m)
 	case p < 87:
